@@ -949,7 +949,7 @@ class Evaluator:
                 f = self.P.method(base.cls, attr)
                 if f is not None:
                     return Closure(f, None, selfv=base)
-            if base.kind in ("seq", "copy") and attr in ("sort", "reverse", "append", "extend", "pop", "insert", "remove", "index", "copy"):
+            if attr in ("sort", "reverse", "append", "extend", "pop", "insert", "remove", "index", "copy") and (base.kind in ("seq", "copy") or (base.cls is None and base.kind not in ("new", "obj")) or "[" in base.text.rsplit(".", 1)[-1]):
                 return Bound(base, attr)
             fc = self.field_cls.get(attr)
             if callable(fc):
@@ -1689,7 +1689,7 @@ class Evaluator:
             heap[k] = mkphi(c, a, b)
         st.heap = heap
         n0 = len(st.events)
-        st.events = st.events + [("in-branch", c, True, ev) for ev in s1.events[n0:]] + [("in-branch", c, False, ev) for ev in s2.events[n0:]]
+        st.events.extend([("in-branch", c, True, ev) for ev in s1.events[n0:]] + [("in-branch", c, False, ev) for ev in s2.events[n0:]])
         st.havoc = s1.havoc | s2.havoc
 
     def stmt(self, s, st):
@@ -1753,6 +1753,11 @@ class Evaluator:
                     continue
                 if isinstance(n, ast.Name) and isinstance(n.ctx, ast.Store):
                     names.add(n.id)
+                # containers mutated in place inside the loop are loop-carried too
+                if isinstance(n, ast.Call) and isinstance(n.func, ast.Attribute) and isinstance(n.func.value, ast.Name) and n.func.attr in ("append", "extend", "insert", "pop", "remove", "sort", "reverse", "clear", "update", "setdefault", "add"):
+                    names.add(n.func.value.id)
+                if isinstance(n, (ast.Subscript,)) and isinstance(n.ctx, (ast.Store, ast.Del)) and isinstance(n.value, ast.Name):
+                    names.add(n.value.id)
         return names
 
     def for_loop(self, s, st):
@@ -1783,7 +1788,7 @@ class Evaluator:
             if k in accs:
                 continue
             if pre[k] is not None:
-                s2.env.assign(k, Opaque("%s@loop%d" % (k, line), cls=getattr(pre[k], "cls", None)))
+                s2.env.assign(k, Opaque("%s@loop%d" % (k, line), cls=getattr(pre[k], "cls", None), kind="seq" if _seqlike(pre[k]) else None))
         for k in accs:
             s2.env.assign(k, Num.atom("acc:%s@loop%d" % (k, line)))
         n0 = len(s2.events)
@@ -1799,14 +1804,15 @@ class Evaluator:
                     delta = inc - Num.atom("acc:%s@loop%d" % (k, line))
                     st.env.assign(k, base + self.sum_over(delta, it, el))
                     continue
-            st.env.assign(k, Opaque("%s@after-loop%d" % (k, line), cls=getattr(pre.get(k), "cls", None)))
+            st.env.assign(k, Opaque("%s@after-loop%d" % (k, line), cls=getattr(pre.get(k), "cls", None), kind="seq" if _seqlike(pre.get(k)) else None))
         if el is not None:
             for t in ast.walk(s.target):
                 if isinstance(t, ast.Name):
                     st.env.assign(t.id, Opaque("%s@after-loop%d" % (t.id, line)))
         # heap: cells written in the body on non-element objects are havoc'd
         for k, v in s2.heap.items():
-            if st.heap.get(k) is not v:
+            old = st.heap.get(k)
+            if old is not v and (old is None or key(old) != key(v)):
                 st.heap = dict(st.heap)
                 if el is not None and isinstance(el, Opaque) and k[0].startswith(el.text):
                     st.heap[k] = v
@@ -1858,18 +1864,23 @@ class Evaluator:
         s2 = st.fork()
         for k in assigned:
             if st.env.lookup(k) is not None:
-                s2.env.assign(k, Opaque("%s@loop%d" % (k, line), cls=getattr(st.env.lookup(k), "cls", None)))
+                s2.env.assign(k, Opaque("%s@loop%d" % (k, line), cls=getattr(st.env.lookup(k), "cls", None), kind="seq" if _seqlike(st.env.lookup(k)) else None))
         n0 = len(s2.events)
         c = self.cond(s.test, s2)
         self.block(s.body, s2, [])
         st.events.append(("while", c, s2.events[n0:], s, s2))
         for k in assigned:
-            st.env.assign(k, Opaque("%s@after-loop%d" % (k, line), cls=getattr(st.env.lookup(k), "cls", None)))
+            st.env.assign(k, Opaque("%s@after-loop%d" % (k, line), cls=getattr(st.env.lookup(k), "cls", None), kind="seq" if _seqlike(st.env.lookup(k)) else None))
         for k, v in s2.heap.items():
-            if st.heap.get(k) is not v:
+            old = st.heap.get(k)
+            if old is not v and (old is None or key(old) != key(v)):
                 st.heap = dict(st.heap)
                 st.heap[k] = Opaque("%s.%s@after-loop%d" % (k[0], k[1], line))
         return None
+
+
+def _seqlike(v):
+    return isinstance(v, (Seq, Cat, MapV)) or (isinstance(v, Opaque) and v.kind in ("seq", "copy"))
 
 
 def _has_exit(s):
